@@ -241,7 +241,20 @@ pub fn net_cfg(cell: &Cell, p: &TraceParams, topo: Topo, menu: Menu) -> NetCfg {
         menu,
         fixed_sport: matches!(cell.ports, Ports::FixedSrc | Ports::FixedBoth).then_some(FIXED_SPORT),
         fixed_dport: matches!(cell.ports, Ports::FixedDest | Ports::FixedBoth).then_some(FIXED_DPORT),
+        reroute: None,
     }
+}
+
+/// Topologies whose path changes between rounds: `grow-a-b` / `shrink-a-b` are `La` for rounds
+/// 0 and 1 and `Lb` from round 2 on (`topo_named` gives the initial path).
+pub fn reroute_named(cell: &Cell, name: &str) -> Option<(usize, Topo)> {
+    let to = match name {
+        "grow-2-3" | "shrink-4-3" => 3,
+        "grow-2-4" => 4,
+        "shrink-4-2" | "shrink-3-2" => 2,
+        _ => return None,
+    };
+    Some((2, topo_linear(cell, to, Target::Answers)))
 }
 
 pub struct RunOutcome {
@@ -325,9 +338,9 @@ pub fn topo_linear(cell: &Cell, l: usize, target: Target) -> Topo {
 pub fn topo_named(cell: &Cell, name: &str) -> Topo {
     let mut t = match name {
         "L1" => topo_linear(cell, 1, Target::Answers),
-        "L2" => topo_linear(cell, 2, Target::Answers),
-        "L3" | "silent-mid" | "every-other" | "dup" | "ecmp" | "refuse" => topo_linear(cell, 3, Target::Answers),
-        "L4" => topo_linear(cell, 4, Target::Answers),
+        "L2" | "grow-2-3" | "grow-2-4" => topo_linear(cell, 2, Target::Answers),
+        "L3" | "L3-flaky" | "shrink-3-2" | "silent-mid" | "every-other" | "dup" | "ecmp" | "refuse" => topo_linear(cell, 3, Target::Answers),
+        "L4" | "shrink-4-2" | "shrink-4-3" => topo_linear(cell, 4, Target::Answers),
         "silent-target" => topo_linear(cell, 3, Target::Silent),
         "far-target-late" => {
             // 199 silent routers, the target at distance 200 starts answering in round 1
@@ -354,7 +367,7 @@ pub fn topo_named(cell: &Cell, name: &str) -> Topo {
 }
 
 /// Every topology name `topo_named` understands (replay artefacts name one of these).
-pub const TOPO_NAMES: &[&str] = &["L1", "L2", "L3", "L4", "silent-mid", "silent-target", "silent-all", "every-other", "dup", "ecmp", "refuse", "far-target-late"];
+pub const TOPO_NAMES: &[&str] = &["L1", "L2", "L3", "L3-flaky", "L4", "grow-2-3", "grow-2-4", "shrink-4-2", "shrink-4-3", "shrink-3-2", "silent-mid", "silent-target", "silent-all", "every-other", "dup", "ecmp", "refuse", "far-target-late"];
 pub const TOPOLOGIES: &[&str] = &["L1", "L2", "L3", "silent-mid", "silent-target", "every-other", "dup", "ecmp"];
 
 // ---------------------------------------------------------------------------------------------
